@@ -171,8 +171,49 @@ func c18(c *Ctx) {
 				if !guarded {
 					continue
 				}
+				// uses on the side of a sign test on which the value is known to be non-negative are uses of the
+				// magnitude already (`if ns < 0 { x = -f(-ns) } else { x = f(ns) }`)
+				nonNegSide := func(blk *ssa.BasicBlock) bool {
+					for _, tb := range fn.Blocks {
+						if len(tb.Instrs) == 0 {
+							continue
+						}
+						iff, ok := tb.Instrs[len(tb.Instrs)-1].(*ssa.If)
+						if !ok {
+							continue
+						}
+						cmp, ok := iff.Cond.(*ssa.BinOp)
+						if !ok {
+							continue
+						}
+						side := -1
+						zeroY := func() bool { k, isC := core.ConstInt(cmp.Y); return isC && k == 0 }
+						zeroX := func() bool { k, isC := core.ConstInt(cmp.X); return isC && k == 0 }
+						switch {
+						case cmp.X == raw && cmp.Op == token.LSS && zeroY(): // raw < 0: false edge is non-negative
+							side = 1
+						case cmp.X == raw && cmp.Op == token.GEQ && zeroY():
+							side = 0
+						case cmp.Y == raw && cmp.Op == token.GTR && zeroX(): // 0 > raw
+							side = 1
+						case cmp.Y == raw && cmp.Op == token.LEQ && zeroX(): // 0 <= raw
+							side = 0
+						}
+						if side < 0 {
+							continue
+						}
+						sc := tb.Succs[side]
+						if len(sc.Preds) == 1 && sc.Dominates(blk) {
+							return true
+						}
+					}
+					return false
+				}
 				bad := ""
 				for _, ref := range *raw.Referrers() {
+					if ref.Block() != nil && nonNegSide(ref.Block()) {
+						continue
+					}
 					switch u := ref.(type) {
 					case *ssa.Phi, *ssa.DebugRef:
 					case *ssa.UnOp:
